@@ -129,7 +129,7 @@ func genC29(g *Gen) {
 	}
 	for i := 0; i < 2; i++ {
 		g.Count("steer:twopass")
-		g.Op("twopass", "%d", g.R.U64()>>1)
+		g.Op("twopass", "%d %d", i, g.R.U64()>>1)
 	}
 	for _, ms := range []int{1, 2} {
 		g.Count("steer:idlewriter")
@@ -865,24 +865,33 @@ func (a *c29GateAuth) AuthorizeSend(_ context.Context, cmd channelappend.SendCom
 	return channelappend.Decision{Allowed: true, Reason: channelappend.ReasonSuccess}, nil
 }
 
-// c29TwoPass <seed>: one channel, four SubmitLocal calls X1..X4 from one goroutine (so their submission order is
+// c29TwoPass <postCommit 0|1> <seed>: one channel, four SubmitLocal calls X1..X4 from one goroutine (so their submission order is
 // 1 < 2 < 3 < 4).  X1's append is held in the port (the channel is at its in-flight limit); X2's prepare is held in
 // the authorizer while X3 is submitted (it arrives during the active pass's deactivate window); then X3's prepare
 // is held while X4 is submitted.  Exactly one pass may advance the writer, so X4 must queue behind X3.
+type c29Post struct{}
+
+func (c29Post) EnqueuePersistAfter(context.Context, channelappend.CommittedEnvelope) {}
+
 func c29TwoPass(f []string) string {
-	if len(f) != 1 {
+	if len(f) != 2 || (f[0] != "0" && f[0] != "1") {
 		return "bad-op"
 	}
-	if _, err := strconv.ParseUint(f[0], 10, 64); err != nil {
+	if _, err := strconv.ParseUint(f[1], 10, 64); err != nil {
 		return "bad-op"
 	}
+	withPostCommit := f[0] == "1" // post-commit work configured: the writer runs advance(), else advanceAppendOnly()
 	log := &c29Log{}
 	port := &c29Port{log: log, gateCh: 0, entered: make(chan struct{}), gate: make(chan struct{})}
 	auth := &c29GateAuth{gates: map[int]chan struct{}{2: make(chan struct{}), 3: make(chan struct{})},
 		reached: map[int]chan struct{}{2: make(chan struct{}), 3: make(chan struct{})}}
 	reached2, reached3 := auth.reached[2], auth.reached[3]
-	group := channelappend.New(channelappend.Options{LocalNodeID: 1, Appender: port, Idempotency: port, MessageID: &c29IDs{}, Authorizer: auth,
-		AuthorityShardCount: 1, AdvancePoolSize: 4, InboxCoalesceWindow: -1})
+	topts := channelappend.Options{LocalNodeID: 1, Appender: port, Idempotency: port, MessageID: &c29IDs{}, Authorizer: auth,
+		AuthorityShardCount: 1, AdvancePoolSize: 4, InboxCoalesceWindow: -1}
+	if withPostCommit {
+		topts.PersistAfterEnqueuer = c29Post{}
+	}
+	group := channelappend.New(topts)
 	if err := group.Start(context.Background()); err != nil {
 		return "start-failed"
 	}
